@@ -17,6 +17,9 @@ type c19Pat struct {
 
 type c19Case struct {
 	Pats []c19Pat `json:"patterns"`
+	// Suffix: this many fully masked bytes (0xc3) are appended to every pattern and to every
+	// input string: the same matching problem with patterns longer than a machine word
+	Suffix int `json:"suffix,omitempty"`
 }
 
 type patOp struct {
@@ -77,6 +80,36 @@ func c19Strings() [][]byte {
 var c19Strs = c19Strings()
 
 func c19Run(c c19Case) (*eng.Fail, bool) {
+	strs := c19Strs
+	if c.Suffix > 0 {
+		orig := c
+		c = c19Case{}
+		for _, p := range orig.Pats {
+			q := c19Pat{append([]byte{}, p.Bytes...), append([]byte{}, p.Mask...)}
+			for i := 0; i < orig.Suffix; i++ {
+				q.Bytes, q.Mask = append(q.Bytes, 0xc3), append(q.Mask, 0xff)
+			}
+			c.Pats = append(c.Pats, q)
+		}
+		strs = nil
+		for _, s := range c19Strs {
+			t := append([]byte{}, s...)
+			for i := 0; i < orig.Suffix; i++ {
+				t = append(t, 0xc3)
+			}
+			strs = append(strs, t, t[:len(t)-1], s)
+		}
+		f, ok := c19RunOn(c, strs)
+		if f != nil {
+			f.Sig += " (long patterns)"
+			f.Case = orig
+		}
+		return f, ok
+	}
+	return c19RunOn(c, strs)
+}
+
+func c19RunOn(c c19Case, strs [][]byte) (*eng.Fail, bool) {
 	ops := make([]*patOp, len(c.Pats))
 	for i, p := range c.Pats {
 		ops[i] = &patOp{i, c19Pat{append([]byte{}, p.Bytes...), append([]byte{}, p.Mask...)}}
@@ -115,7 +148,7 @@ func c19Run(c c19Case) (*eng.Fail, bool) {
 	if err != nil {
 		return nil, false
 	}
-	for _, s := range c19Strs {
+	for _, s := range strs {
 		var got *patOp
 		var ok bool
 		p, stack := eng.Catch(func() { got, ok = m.Match(s) })
@@ -141,7 +174,7 @@ func c19Run(c c19Case) (*eng.Fail, bool) {
 
 func init() {
 	checks["C19"] = eng.Check{
-		Rule: "patterns: every (bytes, mask) of length 1..2 over the byte alphabet {00,01,10,11} (two independent bit lanes; includes masks with zero last byte) plus empty / length-mismatched ones; every ordered set of <=2 patterns (quick) and <=3 patterns from a reduced pattern list (thorough: 3 from all length-1 patterns and a length-2 subset); NewMatcher must succeed iff all well formed and no two patterns are simultaneously matchable; on success Match(s) for every byte string s of length 0..3 over the alphabet must return the unique matching pattern or none. Non-trivial = set that builds successfully.",
+		Rule: "patterns: every (bytes, mask) of length 1..2 over the byte alphabet {00,01,10,11} (two independent bit lanes; includes masks with zero last byte) plus empty / length-mismatched ones; every ordered set of <=2 patterns (quick) and <=3 patterns from a reduced pattern list (thorough: 3 from all length-1 patterns and a length-2 subset); NewMatcher must succeed iff all well formed and no two patterns are simultaneously matchable; on success Match(s) for every byte string s of length 0..3 over the alphabet must return the unique matching pattern or none. Every set is also run with 8 (thorough also 7 and 12) fully masked bytes appended to every pattern and input (patterns of 9..14 bytes, inputs with and without the last byte). Non-trivial = set that builds successfully.",
 		Run: func(r *eng.Run) {
 			var pats []c19Pat
 			for _, b := range c19Alpha {
@@ -176,9 +209,15 @@ func init() {
 			}
 			do(c19Case{})
 			r.Par(len(pats), func(i int) {
-				do(c19Case{[]c19Pat{pats[i]}})
+				do(c19Case{Pats: []c19Pat{pats[i]}})
+				do(c19Case{Pats: []c19Pat{pats[i]}, Suffix: 8})
 				for j := range pats {
-					do(c19Case{[]c19Pat{pats[i], pats[j]}})
+					do(c19Case{Pats: []c19Pat{pats[i], pats[j]}})
+					do(c19Case{Pats: []c19Pat{pats[i], pats[j]}, Suffix: 8})
+					if !r.Quick() {
+						do(c19Case{Pats: []c19Pat{pats[i], pats[j]}, Suffix: 7})
+						do(c19Case{Pats: []c19Pat{pats[i], pats[j]}, Suffix: 12})
+					}
 				}
 			})
 			// triples
@@ -194,12 +233,13 @@ func init() {
 			r.Par(len(tri), func(i int) {
 				for j := range tri {
 					for k := range tri {
-						do(c19Case{[]c19Pat{tri[i], tri[j], tri[k]}})
+						do(c19Case{Pats: []c19Pat{tri[i], tri[j], tri[k]}})
+						do(c19Case{Pats: []c19Pat{tri[i], tri[j], tri[k]}, Suffix: 8})
 					}
 				}
 			})
-			r.Sample(c19Case{[]c19Pat{{[]byte{0x01}, []byte{0x01}}, {[]byte{0x10}, []byte{0x10}}}})
-			r.Sample(c19Case{[]c19Pat{{[]byte{0x01, 0x10}, []byte{0x11, 0x10}}, {[]byte{0x00}, []byte{0x01}}}})
+			r.Sample(c19Case{Pats: []c19Pat{{[]byte{0x01}, []byte{0x01}}, {[]byte{0x10}, []byte{0x10}}}})
+			r.Sample(c19Case{Pats: []c19Pat{{[]byte{0x01, 0x10}, []byte{0x11, 0x10}}, {[]byte{0x00}, []byte{0x01}}}, Suffix: 8})
 		},
 		Replay: func(r *eng.Run, raw json.RawMessage) *eng.Fail {
 			var c c19Case
